@@ -464,3 +464,49 @@ def e10(ctx):
 def e11(ctx):
     from .c17 import href_pairing_obligations
     return href_pairing_obligations(ctx)
+
+
+@rule("C02", "E12", floor=5, kind="N",
+      desc="one ETag, one body in every view: the data properties of multiget / query reports take the bytes from the "
+           "same get_body() that GET serves (same obligations as C17/M3 and C11/Q1) - a re-serialisation in one view "
+           "answers GET's ETag with different bytes for every stored file that is not in canonical form")
+def e12(ctx):
+    from .c17 import m3
+    from .c11 import q1
+    return list(m3(ctx)) + list(q1(ctx))
+
+
+@rule("C02", "E13", floor=20, kind="N",
+      desc="every view reads the current entry: the readers behind GET, PROPFIND and the reports keep no parsed index or tree on the store object (same obligations as C04/B8), so none of them can serve an ETag that a completed write replaced")
+def e13_rp(ctx):
+    from .c04 import reader_purity_obligations
+    return reader_purity_obligations(ctx)
+
+
+@rule("C02", "E14", floor=2, kind="S",
+      desc="the sync report hands out the ETag the other views hand out: iter_changes takes both sides of its comparison "
+           "from iter_with_etag (the one place where a blob id becomes an etag string) and never lists trees or the "
+           "index itself - a raw id yielded on one path is a different value (bytes) for the same resource")
+def e14(ctx):
+    fi = ctx.home_method("xandikos.store.git.GitStore", "iter_changes")
+    cfg = ctx.cfg(fi)
+    obs = []
+    listed, raw = [], []
+    for n in cfg.stmt_nodes():
+        for c in n.calls():
+            if isinstance(c.func, ast.Attribute):
+                if c.func.attr == "iter_with_etag":
+                    listed.append((n, c))
+                elif c.func.attr in ("_iterblobs", "iteritems", "iterobjects", "open_index", "_get_current_tree"):
+                    raw.append((n, c))
+    if not listed:
+        raise AnalysisError("GitStore.iter_changes: no iter_with_etag() call found")
+    obs.append(ctx.ob(len(listed) >= 2, fi.qualname, fi.where, "old and new side are listed through iter_with_etag",
+                      "%d iter_with_etag() calls" % len(listed),
+                      "iter_changes lists only one side through iter_with_etag(): the etags of the other side are produced elsewhere"))
+    obs.append(ctx.ob(not raw, fi.qualname, "%s:%d" % (fi.module.rel, raw[0][0].lineno) if raw else fi.where, "no raw tree / index listing in iter_changes",
+                      "entries come from iter_with_etag() only",
+                      "iter_changes reads entries through `%s` (line %d) instead of iter_with_etag(): what it yields there is the raw "
+                      "object id, not the etag string GET, PROPFIND and multiget return for the same bytes"
+                      % (src(raw[0][1])[:50] if raw else "", raw[0][0].lineno if raw else 0)))
+    return obs
